@@ -84,7 +84,9 @@ func FuzzC05Program(f *testing.F) {
 // ---------------------------------------------------------------- C07
 
 func FuzzC07Exec(f *testing.F) {
-	scriptSeeds(f, func(u, l []byte, fl uint32) { f.Add(u, l, fl, uint8(1), uint8(0), uint32(0), uint32(0xffffffff), uint16(0)) })
+	scriptSeeds(f, func(u, l []byte, fl uint32) {
+		f.Add(u, l, fl, uint8(1), uint8(0), uint32(0), uint32(0xffffffff), uint16(0))
+	})
 	f.Fuzz(func(t *testing.T, unlock, lock []byte, flags uint32, mode, dbg uint8, locktime, sequence uint32, sats uint16) {
 		if len(unlock)+len(lock) > 4096 {
 			t.Skip()
